@@ -112,7 +112,7 @@ Definition corr_sched (c : scase) : bool :=
   && final_eqb (c_final c) (final_of s)
   && Nat.eqb (c_status c) (model_status s).
 
-(* the property on the implementation's observation (everything but "no thread alive") *)
+(* the property on the implementation's observation *)
 Definition player_ok (evs : list event) (i : nat) (fp : fplayer) (a : list chunk) : bool :=
   let w := writes_of i evs in
   chunks_eqb w (f_written fp) && prefix_b w a
@@ -140,10 +140,7 @@ Definition holds_sched (c : scase) : bool :=
   && Nat.eqb (count_ev is_terminate evs) (f_terminated f) && (f_terminated f <=? 1)
   && Nat.eqb (count_ev is_assert_fail evs) 0
   && Nat.eqb (count_ev is_play_raise evs) (expected_raises (c_script c))
-  && close_ok exp evs
+  && close_ok exp evs && nobody_alive evs
   && (if has_close (c_script c) then final_closed f else true)
   && locks_free f.
 
-(* second family, same schedules: "afterwards no player thread is alive" *)
-Definition corr_alive (evs : list event) : bool := true.
-Definition holds_alive (evs : list event) : bool := nobody_alive evs.
